@@ -246,7 +246,7 @@ Theorem fee_attrs_valid_iff e infos :
   Z.of_nat (length infos) <= max_fee_recipients /\
   forall o, In o infos ->
     exists f, o = Some f /\
-      (exists a, e_bech32 e (fi_recipient f) = Some a) /\
+      (exists a, e_bech32 e (fi_recipient f) = Some a /\ module_owned a = false) /\
       ((exists v, fi_type f = Some (FBps v) /\ 0 < v <= bps_normalizer) \/
        (exists s n, fi_type f = Some (FAmount s) /\ e_parse_int e s = Some n /\ 0 < n)).
 Proof.
@@ -255,13 +255,14 @@ Proof.
   - destruct o as [f|]; [|discriminate]. exists f. split; [reflexivity|].
     unfold fee_info_valid in H. apply andb_true_iff in H as [Ht Hr].
     split.
-    + destruct (e_bech32 e (fi_recipient f)) as [a|]; [eauto|discriminate].
+    + destruct (e_bech32 e (fi_recipient f)) as [a|]; [|discriminate].
+      exists a. split; [reflexivity|]. destruct (module_owned a); [discriminate|reflexivity].
     + destruct (fi_type f) as [[v| |s|]|]; try discriminate.
       * left. exists v. apply andb_true_iff in Ht as [H0 H1].
         apply Z.ltb_lt in H0. apply Z.leb_le in H1. auto.
       * right. destruct (e_parse_int e s) as [n|] eqn:Ep; [|discriminate].
         apply Z.ltb_lt in Ht. exists s, n. auto.
-  - destruct H as (f & -> & (a & Ha) & Hty). unfold fee_info_valid. rewrite Ha.
+  - destruct H as (f & -> & (a & Ha & Hm) & Hty). unfold fee_info_valid. rewrite Ha, Hm. cbn [negb].
     destruct Hty as [(v & -> & Hv) | (s & n & -> & -> & Hn)].
     + replace (0 <? v) with true by (symmetry; apply Z.ltb_lt; lia).
       replace (v <=? bps_normalizer) with true by (symmetry; apply Z.leb_le; lia). reflexivity.
